@@ -180,8 +180,18 @@ class Optic:
 
         # change geometry from plane to standard
         if isinstance(surface.geometry, Plane):
+            if np.isinf(value):
+                return
             cs = surface.geometry.cs
-            new_geometry = StandardGeometry(cs, radius=value, conic=0)
+            # a conic constant set while the surface was flat is kept
+            conic = getattr(surface.geometry, 'k', 0)
+            new_geometry = StandardGeometry(cs, radius=value, conic=conic)
+            surface.geometry = new_geometry
+        elif np.isinf(value) and type(surface.geometry) is StandardGeometry:
+            # a conic of infinite radius is a plane (its own intersection
+            # formula would evaluate inf - inf)
+            new_geometry = Plane(surface.geometry.cs)
+            new_geometry.k = surface.geometry.k
             surface.geometry = new_geometry
         else:
             surface.geometry.radius = value
